@@ -114,6 +114,17 @@ func main() {
 		if l.gtT != nil {
 			spawn(l.name+"/GT", func() { runGT(c, l) })
 		}
+		for _, cl := range contLibs() {
+			if cl.name == l.name {
+				cl := cl
+				spawn(l.name+"/containers", func() {
+					get()
+					if s != nil {
+						runContainers(c, cl, s)
+					}
+				})
+			}
+		}
 	}
 	for _, e := range te.All {
 		e := e
